@@ -22,7 +22,7 @@ ALL = ["C%02d" % i for i in range(1, 21)]
 
 def job(args):
     kind, k, names = args
-    v, r = setup_sandbox(k)
+    v, r = setup_sandbox(k + int(os.environ.get("SANDBOX_OFFSET", "0")))
     out = []
     env = {"VERIF_REPO": r}
     for name in names:
